@@ -11,7 +11,7 @@ package auth
 //@ func UserFromCtx
 //@   props C17
 //@   requires ctx != nil
-//@   modifies cache.requestUser
+//@   modifies cache.requestUser, cache.lruTouches
 //@   ensures [no-user] !hasUser(ctx) ==> err == ErrNotAuthenticated && result == nil
 //@   ensures [user]    err == nil ==> hasUser(ctx)
 //@   defines [request-user] err == nil ==> cache.requestUser == result
